@@ -65,6 +65,53 @@ def job_outputs(spec: dict, t: str, oc: dict) -> Set[str]:
     return outs
 
 
+def unheard_outputs(sim, spec) -> Dict[Tuple[str, str], Set[str]]:
+    """Custom outputs whose job message reached the scheduler only after the
+    task had left the pool: {(cycle, task): {output names}}.
+
+    The schedule may deliver a job's messages out of order; if "succeeded"
+    overtakes the message of an optional custom output the task completes
+    and is removed, and the late message is (by design, with a warning)
+    undeliverable.  From the scheduler's point of view that output was never
+    produced, so a reference run must not count it either."""
+    heard = set()
+    removed_at: Dict[Tuple[str, str], int] = {}
+    delivered: Dict[Tuple[str, str, str], int] = {}
+    for ev in sim.trace:
+        if ev['k'] == 'pm' and ev['flag'] != '(internal)':
+            heard.add((ev['cycle'], ev['name'], ev['msg']))
+        elif ev['k'] == 'remove':
+            removed_at.setdefault((ev['cycle'], ev['name']), ev['it'])
+        elif ev['k'] == 'deliver':
+            cyc, name, _sn = ev['job'].split('/')
+            delivered.setdefault((cyc, name, ev['msg']), ev['it'])
+    out: Dict[Tuple[str, str], Set[str]] = {}
+    for (cyc, name, msg), it in delivered.items():
+        if (cyc, name, msg) in heard:
+            continue
+        gone = removed_at.get((cyc, name))
+        # a delivered message is processed in the next main-loop iteration
+        if gone is None or gone > it + 1:
+            continue
+        for nm, m in spec.get('custom', {}).get(name, {}).items():
+            if m == msg:
+                out.setdefault((cyc, name), set()).add(nm)
+    return out
+
+
+def heard_result_of(sim, spec, outcomes, to_str):
+    """result_of(t, p) for Model.closure: the outputs of the first job of
+    each instance as scripted, minus `unheard_outputs`.  Returns
+    (result_of, unheard)."""
+    unheard = unheard_outputs(sim, spec)
+
+    def result_of(t, p):
+        outs = job_outputs(spec, t, outcome_for(outcomes, t, p, 1))
+        return outs - unheard.get((to_str.get(p), t), set())
+
+    return result_of, unheard
+
+
 # ---------------------------------------------------------------------------
 # strategies
 
